@@ -132,13 +132,20 @@ Record case := mkCase {
 
 (* ---------------------------------------------------------------- replay; every failure has a code *)
 
+(* a nil entry of Producer.Interceptors (the harness marks it with a negative size delta) is an interceptor whose
+   application always panics inside safelyApplyInterceptor: the model logs it, the implementation cannot *)
+Definition ic_nil (c : cfg) (k : nat) : bool :=
+  match nth_error (c_ics c) k with Some ic => ic_delta ic <? 0 | None => false end.
+Definition drop_nil (c : cfg) (l : list obs) : list obs :=
+  filter (fun o => match o with OIc _ k _ => negb (ic_nil c k) | _ => true end) l.
+
 Fixpoint disp_run (c : cfg) (d : disp) (l : list dlog_step) (i : nat) : list (Z * nat) * list obs :=
   match l with
   | [] => ([], [])
   | s :: r =>
       let '(d', effs) := disp_step c d (ds_in s) in
       let bad := (if Bool.eqb (d_shut d) (ds_shut s) then [] else [(11, i)]) ++
-                 (if obs_list_match (proj effs) (ds_out s) then [] else [(10, i)]) in
+                 (if obs_list_match (drop_nil c (proj effs)) (ds_out s) then [] else [(10, i)]) in
       let '(b, o) := disp_run c d' r (S i) in (bad ++ b, proj effs ++ o)
   end.
 
